@@ -35,6 +35,33 @@ def cases(rng, tier):
         c = {"chunks": [nodes], "seed": 1, "lay": None}
         c["texts"] = [qa.p_program(nodes, rng, header=False)]
         cs.append(c)
+    # more declared qubits than can be simulated (13..63 in 1-4 registers): the operator queue must name bit k for the
+    # k-th declared qubit -- read from the interpreter's own rendering of the queue, no execution, no model run
+    for _ in range(30 if tier == "quick" else 600):
+        sizes = []
+        total = rng.choice([13, 20, 31, 32, 33, 34, 40, 47, 62, 63])
+        left = total
+        while left > 0:
+            k = min(left, rng.randint(1, 33)); sizes.append(k); left -= k
+        names = ["r%d" % i for i in range(len(sizes))]
+        decl = [("qreg", nm, sz) for nm, sz in zip(names, sizes)]
+        offs = [sum(sizes[:i]) for i in range(len(sizes))]
+        pick = lambda: (lambda i: (i, rng.randrange(sizes[i])))(rng.randrange(len(sizes)))
+        (i1, j1), (i2, j2) = pick(), pick()
+        k1, k2 = offs[i1] + j1, offs[i2] + j2
+        if rng.random() < 0.5 or k1 == k2:
+            st = ("apply", "x", [("q", names[i1], j1)], []); want = "[X%d]" % (1 << k1)
+        else:
+            st = ("apply", "cx", [("q", names[i1], j1), ("q", names[i2], j2)], []); want = "[C%d_X%d]" % (1 << k1, 1 << k2)
+        if rng.random() < 0.3:
+            # through a user gate, whole register argument of a one-qubit register when there is one
+            st = ("apply", "x", [("q", names[i1], j1)], []); want = "[X%d]" % (1 << k1)
+            decl = decl + [("gate", "gx", ["a"], [], [("apply", "x", [("r", "a")], [])])]
+            st = ("apply", "gx", [("q", names[i1], j1)], [])
+        nodes = decl + [st]
+        c = {"chunks": [nodes], "seed": 1, "lay": None, "impl_only": True, "expect_tree": want}
+        c["texts"] = [qa.p_program(nodes, rng, header=False)]
+        cs.append(c)
     for _ in range(150 if tier == "quick" else 8000):
         nodes, lay = qa.gen_program(rng, nstmts=rng.randint(5, 40 if tier == "thorough" else 25), max_q=5,
                                     gate_defs=3, depth=rng.randint(1, 4))
@@ -48,6 +75,12 @@ def oracle(case, obs):
     """reference interpreter (python, numpy) for the same program"""
     if obs[0] in ("panic", "died"):
         return ["crash: %s" % (obs,)]
+    if case.get("expect_tree"):
+        tree = obs[2] if obs[0] == "noexec" else (obs[1].get("tree") if obs[0] == "ok" else None)
+        if tree is None:
+            return ["well-formed program rejected: %s" % (obs,)]
+        return [] if tree.replace(" ", "") == case["expect_tree"] else \
+            ["operator queue %s, expected %s: the k-th declared qubit is not bit k" % (tree, case["expect_tree"])]
     try:
         want = pyref.run(case["chunks"][0], [])
     except pyref.Unsupported:
